@@ -37,3 +37,45 @@ package dao
 //@ requires[nopanic] dao != nil
 //@ ensures[allsigners] result == nil ==> ncalls(Get) == 1 || ncalls(Get) == 1 + len(signers)
 //@ loop 0 invariant[count] ncalls(Get) == 1 + $i && len($range) == len(signers) && $i <= len(signers)
+
+// ---- contract storage as the native contracts see it (C05)
+// The abstract content of contract id's storage as read through DAO d, observed through the
+// readings the token contracts make of a value: kv(d, id) maps a key to the integer its value
+// spells (presence of the key is presence in this map), kvBal to the NEP-17 balance it holds,
+// kvOk to whether it is a well-formed balance record. A write records the readings of the
+// bytes written, a read returns bytes with the recorded readings. The four accessors are
+// assumed to behave so (what the layered store underneath guarantees is the subject of C09).
+//@ prop C05
+//@ import big math/big
+//@ import bigint github.com/nspcc-dev/neo-go/pkg/encoding/bigint
+//@ import state github.com/nspcc-dev/neo-go/pkg/core/state
+//@ spec kv(d *Simple, id int32) map[string]int
+//@ spec kvBal(d *Simple, id int32) map[string]int
+//@ spec kvOk(d *Simple, id int32) map[string]bool
+// the three readings are separate maps
+//@ spec kvSep(d *Simple, id int32) bool = kv(d, id) != kvBal(d, id) && kv(d, id) != nil && kvBal(d, id) != nil && kvOk(d, id) != nil
+
+//@ func (*Simple).GetStorageItem
+//@ assumed
+//@ pure
+//@ requires[nopanic] dao != nil
+//@ ensures kvSep(dao, id) && (result != nil) == has(kv(dao, id), string(key))
+//@ ensures result != nil ==> bigint.le2c(result) == kv(dao, id)[string(key)] && state.decBal(result) == kvBal(dao, id)[string(key)] && state.validBal(result) == kvOk(dao, id)[string(key)]
+
+//@ func (*Simple).PutStorageItem
+//@ assumed
+//@ requires[nopanic] dao != nil
+//@ modifies kv(dao, id)[string(key)], kvBal(dao, id)[string(key)], kvOk(dao, id)[string(key)]
+//@ ensures kvSep(dao, id) && has(kv(dao, id), string(key)) && kv(dao, id)[string(key)] == bigint.le2c(si) && kvBal(dao, id)[string(key)] == state.decBal(si) && kvOk(dao, id)[string(key)] == state.validBal(si)
+
+//@ func (*Simple).DeleteStorageItem
+//@ assumed
+//@ requires[nopanic] dao != nil
+//@ modifies kv(dao, id)[string(key)], kvBal(dao, id)[string(key)], kvOk(dao, id)[string(key)]
+//@ ensures kvSep(dao, id) && !has(kv(dao, id), string(key))
+
+//@ func (*Simple).PutBigInt
+//@ assumed
+//@ requires[nopanic] dao != nil && n != nil
+//@ modifies kv(dao, id)[string(key)], kvBal(dao, id)[string(key)], kvOk(dao, id)[string(key)]
+//@ ensures kvSep(dao, id) && has(kv(dao, id), string(key)) && kv(dao, id)[string(key)] == n.v
